@@ -842,7 +842,7 @@ impl Exec {
                         let t = dump_nodes(&a.bdd);
                         let m = crate::fam_bdd::dump_tables(&a.bdd);
                         out.line(&format!("memocheckn {n} {t} {m}"));
-                        out.line("~ ok");
+                        out.line("= audit ok");
                         out.line(&format!("# case adf n={n} nodes={}", a.bdd.nodes.len()));
                     }
                 }
@@ -946,7 +946,8 @@ impl Exec {
         let (code, stdout) = run_cli(&argv);
         // canonical: every printed line mapped back to the ORIGINAL statement order
         let mut canon: Vec<String> = Vec::new();
-        let mut wellformed = true;
+        let mut wellformed = true; // strict: statements in variable order (compared with the model)
+        let mut labelled = true; // what the property states: every statement once, under its own name
         for line in stdout.lines() {
             let mut cs = vec!['?'; n];
             let mut count = 0;
@@ -957,14 +958,27 @@ impl Exec {
                     (Some(i), "T") | (Some(i), "F") | (Some(i), "u") => {
                         if count < n && order[count] != i {
                             wellformed = false; // not printed in variable order
+                            if sort == "lx" {
+                                labelled = false; // with --lx the reporting order is part of the property
+                            }
+                        }
+                        if cs[i] != '?' {
+                            labelled = false;
                         }
                         cs[i] = v.chars().next().unwrap();
                         count += 1;
                     }
-                    _ => wellformed = false,
+                    _ => {
+                        wellformed = false;
+                        labelled = false;
+                    }
                 }
             }
-            if count != n || !line.ends_with(' ') {
+            if count != n {
+                wellformed = false;
+                labelled = false;
+            }
+            if !line.ends_with(' ') {
                 wellformed = false;
             }
             canon.push(cs.into_iter().collect());
@@ -990,7 +1004,7 @@ impl Exec {
             format!("~ exit={code} set={}", j(&set)),
             // the documented order of the sections is judged by the specification too: the printed
             // lines, in order, are handed over and split into the sections' blocks there
-            format!("clicheck {mode} {flags} {code} {} {}", wellformed as u8, j(&raw_seq)),
+            format!("clicheck {mode} {flags} {code} {} {}", labelled as u8, j(&raw_seq)),
             "~ ok".to_string(),
             format!("# case adf n={n} nodes=9 mode={mode} flags={}", flag_list.len()),
         ])
@@ -1155,6 +1169,7 @@ impl Exec {
                 labels.iter().map(|l| hex(l)).collect::<Vec<_>>().join(",")
             ),
             "~ ok".into(),
+            "= declaration-order ok".into(),
             format!("# case adf n={n} nodes={} sort={sort}", adf.bdd.nodes.len()),
         ])
     }
